@@ -509,6 +509,17 @@ def _is_simple_expr(e) -> bool:
     return isinstance(e, (ast.Name, ast.Constant)) or (isinstance(e, ast.Attribute) and _is_simple_expr(e.value))
 
 
+def _pure_arith(e) -> bool:
+    """names, constants, attribute chains (of names) and arithmetic / bit operators over them: no calls, no subscripts"""
+    if _is_simple_expr(e):
+        return True
+    if isinstance(e, ast.BinOp) and isinstance(e.op, (ast.Add, ast.Sub, ast.Mult, ast.LShift, ast.RShift, ast.BitAnd, ast.BitOr, ast.BitXor)):
+        return _pure_arith(e.left) and _pure_arith(e.right)
+    if isinstance(e, ast.UnaryOp) and isinstance(e.op, (ast.USub, ast.Invert)):
+        return _pure_arith(e.operand)
+    return False
+
+
 class _Subst(ast.NodeTransformer):
     def __init__(self, env):
         self.env = env
@@ -586,6 +597,18 @@ class _Inliner(ast.NodeTransformer):
         body = _strip_doc(fn.body)
         if len(body) == 1 and isinstance(body[0], ast.Return) and body[0].value is not None:
             return body[0].value
+        # straight-line helper: `t1 = <pure arithmetic>; t2 = <pure arithmetic over t1>; return E` is the expression E with the
+        # temporaries substituted (each bound once; pure operands, so neither duplication nor order of evaluation matters)
+        if len(body) >= 2 and isinstance(body[-1], ast.Return) and body[-1].value is not None and all(
+            isinstance(st, ast.Assign) and len(st.targets) == 1 and isinstance(st.targets[0], ast.Name) and _pure_arith(st.value) for st in body[:-1]
+        ):
+            names = [st.targets[0].id for st in body[:-1]]
+            params = {a.arg for a in fn.args.posonlyargs + fn.args.args + fn.args.kwonlyargs}
+            if len(set(names)) == len(names) and not (set(names) & params):
+                env = {}
+                for st in body[:-1]:
+                    env[st.targets[0].id] = _Subst(env).visit(copy.deepcopy(st.value))
+                return _Subst(env).visit(copy.deepcopy(body[-1].value))
         return None
 
     def _inline_expr(self, call, awaited: bool):
@@ -1812,6 +1835,26 @@ class _SplitHandler(ast.NodeTransformer):
         return out
 
 
+class _TryElse(ast.NodeTransformer):
+    """`try: v = E  except X: H  else: return v` is `try: return E  except X: H` when v is a plain local used nowhere else
+    in the statement: the else clause runs exactly when E did not raise, and binding a local or returning it cannot raise.
+    More generally an else clause is appended to the try body when the handlers cannot be entered from it, i.e. when it
+    consists of statements that cannot raise (`return <name>` / `<name> = <name>` / pass)."""
+
+    def visit_Try(self, node):
+        self.generic_visit(node)
+        if node.orelse and not node.finalbody and len(node.body) == 1 and isinstance(node.body[0], ast.Assign) and len(node.body[0].targets) == 1 and isinstance(node.body[0].targets[0], ast.Name):
+            v = node.body[0].targets[0].id
+            first = node.orelse[0]
+            uses_elsewhere = sum(1 for st in node.orelse[1:] for x in ast.walk(st) if isinstance(x, ast.Name) and x.id == v) + sum(1 for h in node.handlers for x in ast.walk(h) if isinstance(x, ast.Name) and x.id == v)
+            if len(node.orelse) == 1 and isinstance(first, ast.Return) and isinstance(first.value, ast.Name) and first.value.id == v and not uses_elsewhere:
+                ret = ast.Return(value=node.body[0].value)
+                ast.copy_location(ret, node.body[0])
+                node.body = [ret]
+                node.orelse = []
+        return node
+
+
 class _Walrus(ast.NodeTransformer):
     """`if (x := E) ...:` / `stmt(... (x := E) ...)`: when the assignment expression is the first thing the statement evaluates
     (and, for an `if`, sits in its test), it is hoisted: `x = E` followed by the statement using `x`."""
@@ -2315,6 +2358,7 @@ def canonicalise(tree: ast.Module, modname: str, is_package: bool = False):
             tree = _drop_unreferenced(tree, {k: v[0] for k, v in helpers.items() if k in set(inl.done)})
     tree = _Walrus().visit(tree)
     tree = _SplitHandler().visit(tree)
+    tree = _TryElse().visit(tree)
     tree = _MatchToIf().visit(tree)
     tree = _SuppressToTry().visit(tree)
     tree = _HoistChained().visit(tree)
